@@ -307,6 +307,8 @@ def run(ck):
         if hf is None or hf.body is None or any(a.get("id") == loop["id"] for a in fn.ancestors(c)) or c.get("ck") == "member":
             continue
         cargs = c.get("args", [])
+        if c.get("ck") == "operator" and c.get("op") == "()":
+            cargs = cargs[1:]        # a local lambda: the first operand is the closure object
         for hs_ in json_sets(hf):
             # which parameter is the target object / the attribute name
             tpi = [i for i, p_ in enumerate(hf.params) if p_["decl"] == hs_["obj"]]
